@@ -140,9 +140,25 @@ func runC10(c *core.Ctx) {
 	names, _ := tokenTypeNames(p)
 
 	// ---------- C10.depth ----------
-	c.Rule("C10.depth", "in each decoder package every recursive call among its functions either passes the caller's depth parameter through unchanged or passes depth+k (k>=1) from a point dominated by the not-exceeded edge of a comparison depth >= limit; every recursive cycle contains an incrementing call", 2)
+	c.Rule("C10.depth", "in each decoder package every recursive call among its functions either passes the caller's depth parameter through unchanged or passes depth+k (k>=1) from a point dominated by the not-exceeded edge of a comparison depth >= limit; every recursive cycle contains an incrementing call; and the two decoders use the same comparison (depth < limit), so that MaxDepth means the same nesting bound in both", 3)
+	depthOps := map[string]map[string]bool{}
 	for _, rel := range []string{"codec/dagcbor", "codec/dagjson"} {
-		checkDepth(c, rel)
+		depthOps[rel] = checkDepth(c, rel)
+	}
+	// sibling agreement: MaxDepth bounds the same nesting in both decoders
+	{
+		var descr []string
+		all := map[string]bool{}
+		for _, rel := range []string{"codec/dagcbor", "codec/dagjson"} {
+			var ops []string
+			for op := range depthOps[rel] {
+				ops = append(ops, "depth "+op+" limit")
+				all[op] = true
+			}
+			sort.Strings(ops)
+			descr = append(descr, rel+": "+strings.Join(ops, " / "))
+		}
+		c.Check(len(all) == 1, "codec#depth-limit-same-comparison", "-", "both decoders descend behind the same comparison ("+strings.Join(descr, "; ")+")", "the bundled decoders do not bound nesting by the same comparison ("+strings.Join(descr, "; ")+"): with the same MaxDepth one of them accepts one more (or one fewer) level of nesting than the other, so the documented bound does not hold for one of them")
 	}
 
 	// ---------- C10.budget / prealloc ----------
@@ -155,14 +171,7 @@ func runC10(c *core.Ctx) {
 	}
 	var hints []hint
 	for _, tc := range consumers {
-		var budget *ssa.Parameter
-		for _, prm := range tc.fn.Params {
-			if pt, ok := prm.Type().(*types.Pointer); ok {
-				if b, ok := pt.Elem().(*types.Basic); ok && b.Kind() == types.Int64 {
-					budget = prm
-				}
-			}
-		}
+		budget := budgetOf(tc)
 		key := core.FuncKey(tc.fn)
 		for _, ci := range tc.calls() {
 			name, ok := assemblerCall(ci)
@@ -178,7 +187,7 @@ func runC10(c *core.Ctx) {
 			arm := tc.armChain(ci, names)
 			ck := fmt.Sprintf("%s#budget:%s[%s]", key, name, arm)
 			if budget == nil {
-				c.Fail(ck, p.Pos(ci.Pos()), "decoder function commits token data but has no *int64 budget parameter")
+				c.Fail(ck, p.Pos(ci.Pos()), "decoder function commits token data but has no allocation budget in view (an *int64 parameter, or an int64 field of its state struct that it decrements)")
 				continue
 			}
 			var need []string
@@ -207,14 +216,7 @@ func runC10(c *core.Ctx) {
 	c.Rule("C10.prealloc", "the size hint given to BeginMap/BeginList in the CBOR decoder is, on every incoming path, a constant, a value not derived from the token (the configured cap), or a token-derived value that is upper-bounded by a non-token value on that path and was charged to the budget", 2)
 	for _, h := range hints {
 		tc := h.tc
-		var budget *ssa.Parameter
-		for _, prm := range tc.fn.Params {
-			if pt, ok := prm.Type().(*types.Pointer); ok {
-				if b, ok := pt.Elem().(*types.Basic); ok && b.Kind() == types.Int64 {
-					budget = prm
-				}
-			}
-		}
+		budget := budgetOf(tc)
 		name, _ := assemblerCall(h.ci)
 		ck := fmt.Sprintf("%s#hint:%s", core.FuncKey(tc.fn), name)
 		v := h.ci.Common().Args[0]
@@ -423,7 +425,7 @@ func runC10Slice(c *core.Ctx) {
 
 // chargedEdges returns the edges on which the budget is known not exhausted
 // right after a decrement whose operand covers len() of all needed fields.
-func chargedEdges(tc *tokenConsumer, budget *ssa.Parameter, need []string) map[core.Edge]bool {
+func chargedEdges(tc *tokenConsumer, budget *budgetLoc, need []string) map[core.Edge]bool {
 	return chargedEdgesFor(tc, budget, func(x ssa.Value) bool {
 		for _, f := range need {
 			if !tc.derivesFromField(x, f) {
@@ -446,10 +448,16 @@ func holdsAt(rg *core.Region, v ssa.Value, blk *ssa.BasicBlock, ed *core.Edge, n
 	if v == nil || core.ConstVal(v) != nil || !need(v) {
 		return true
 	}
-	for e := range guards(v) {
+	gs := guards(v)
+	for e := range gs {
 		if (ed != nil && e == *ed) || rg.EdgeDominates(e, blk) {
 			return true
 		}
+	}
+	// the guard may sit inside a helper whose result the path tested (charge(n) returning nil): no path reaches blk
+	// without crossing a guarding edge
+	if len(gs) > 0 && ed == nil && !core.BlockReachableAvoiding(rg.Root, blk, gs) {
+		return true
 	}
 	if seen[v] {
 		return false
@@ -510,9 +518,64 @@ func helperResultHolds(rg *core.Region, g *ssa.Function, idx int, need func(ssa.
 	return true
 }
 
-func chargedEdgesFor(tc *tokenConsumer, budget *ssa.Parameter, operandOK func(ssa.Value) bool) map[core.Edge]bool {
+// budgetLoc is where a decoder function keeps the allocation budget: the pointee of an *int64 parameter, or an int64
+// field of the state struct the decoder's functions share (recognised by being decremented, never by name).
+type budgetLoc struct {
+	param *ssa.Parameter
+	field *core.FieldID
+}
+
+func budgetOf(tc *tokenConsumer) *budgetLoc {
+	for _, prm := range tc.fn.Params {
+		if pt, ok := prm.Type().(*types.Pointer); ok {
+			if b, ok := pt.Elem().(*types.Basic); ok && b.Kind() == types.Int64 {
+				return &budgetLoc{param: prm}
+			}
+		}
+	}
+	// an int64 field of an unexported struct that the function (or a helper) decrements: f = f - x
+	var found *core.FieldID
+	ambiguous := false
+	core.InstrsR(tc.fn, func(in ssa.Instruction) {
+		st, ok := in.(*ssa.Store)
+		if !ok {
+			return
+		}
+		id, fv, ok := core.FieldOfAddr(st.Addr)
+		if !ok || id.Type.Exported() {
+			return
+		}
+		if b, ok := fv.Type().Underlying().(*types.Basic); !ok || b.Kind() != types.Int64 {
+			return
+		}
+		bo, ok := st.Val.(*ssa.BinOp)
+		if !ok || bo.Op != token.SUB {
+			return
+		}
+		if lid, _, ok := core.FieldOfLoad(bo.X); !ok || lid != id {
+			return
+		}
+		if found != nil && *found != id {
+			ambiguous = true
+		}
+		idc := id
+		found = &idc
+	})
+	if found == nil || ambiguous {
+		return nil
+	}
+	return &budgetLoc{field: found}
+}
+
+func chargedEdgesFor(tc *tokenConsumer, budget *budgetLoc, operandOK func(ssa.Value) bool) map[core.Edge]bool {
 	rg := core.RegionOf(tc.fn)
-	isBudget := func(a ssa.Value) bool { return a == ssa.Value(budget) || rg.Canon(a) == ssa.Value(budget) }
+	isBudget := func(a ssa.Value) bool {
+		if budget.param != nil {
+			return a == ssa.Value(budget.param) || rg.Canon(a) == ssa.Value(budget.param)
+		}
+		id, _, ok := core.FieldOfAddr(a)
+		return ok && id == *budget.field
+	}
 	isBudgetLoad := func(v ssa.Value) bool {
 		u, ok := v.(*ssa.UnOp)
 		return ok && u.Op == token.MUL && isBudget(u.X)
@@ -626,7 +689,8 @@ func chargeMayOverflow(tc *tokenConsumer, y ssa.Value) bool {
 }
 
 // checkDepth decides the recursion-depth rule for one decoder package.
-func checkDepth(c *core.Ctx, rel string) {
+func checkDepth(c *core.Ctx, rel string) (guardOps map[string]bool) {
+	guardOps = map[string]bool{}
 	p := c.P
 	fns := decoderLocal(p, rel)
 	in := map[*ssa.Function]bool{}
@@ -691,6 +755,20 @@ func checkDepth(c *core.Ctx, rel string) {
 			if len(edges) > 0 {
 				depthIdx[f] = i
 				guardEdges[f] = edges
+				for e := range edges {
+					for _, a := range core.ImpliedAtoms(e) {
+						if a.Rel == nil {
+							continue
+						}
+						r := *a.Rel
+						if r.X != ssa.Value(prm) {
+							r = r.Flip()
+						}
+						if r.X == ssa.Value(prm) && (r.Op == token.LSS || r.Op == token.LEQ) {
+							guardOps[r.Op.String()] = true
+						}
+					}
+				}
 			}
 		}
 	}
@@ -778,6 +856,7 @@ func checkDepth(c *core.Ctx, rel string) {
 			st = append(st, passThrough[x]...)
 		}
 	}
+	return guardOps
 }
 
 func findTokenConsumersIn(p *core.Program, fn *ssa.Function) *tokenConsumer {
